@@ -373,6 +373,37 @@ def run(ctx: Ctx):
         ctx.ob("R11.2", f"{sched.qual}: runaway test in the slot walk", (sched, w), ok,
                "cursor outside [start, end] marks the task as runaway and stops" if ok else "slot walk has no runaway exit",
                key="R11.2|schedule|runaway")
+    # ... and that test can fire: the cursor is set from Project.dateToIdx(), which must hand back the raw index of a date outside
+    # the window -- a result clamped into [0, size) makes `cursor < lowerLimit or cursor > upperLimit` unsatisfiable at entry, and a
+    # task pinned outside the time frame is reported as scheduled with dates outside the horizon
+    d2i = repo.func("Project.dateToIdx")
+    clamps = []
+    for x in own_nodes(d2i):
+        if isinstance(x, (ast.Assign, ast.Return)) and x.value is not None and any(
+                isinstance(c_, ast.Call) and isinstance(c_.func, ast.Name) and c_.func.id in ("min", "max") for c_ in ast.walk(x.value)):
+            clamps.append(x)
+    from .common import enclosing_ifs as _eifs2
+    sites = [c_ for c_ in own_nodes(sched) if isinstance(c_, ast.Call) and norm(c_.func) == "self.project.dateToIdx"]
+    if not sites:
+        raise AnchorMissing("TaskScenario.schedule: no call of self.project.dateToIdx")
+    bad = []
+    for x in clamps:
+        gs = [(i, b) for (i, b) in _eifs2(x, d2i.node)]
+        switch = [norm(i.test) for (i, b) in gs if b == "T" and norm(i.test) in d2i.params]
+        if not switch:
+            bad.append((x, "unconditionally"))
+            continue
+        pidx = d2i.params.index(switch[0]) - 1
+        for c_ in sites:
+            passed = c_.args[pidx] if 0 <= pidx < len(c_.args) else next((k.value for k in c_.keywords if k.arg == switch[0]), None)
+            if not (isinstance(passed, ast.Constant) and passed.value is False):
+                bad.append((x, f"unless {switch[0]}=False is passed, and {norm(c_)[:50]} does not pass it"))
+                break
+    ctx.ob("R11.2", f"{d2i.qual}: raw index for the slot walk ({len(clamps)} clamp(s), {len(sites)} call(s) in schedule)", (d2i, bad[0][0] if bad else None), not bad,
+           "a date outside the window maps outside [0, size): the run-away test sees it" if not bad else
+           f"{norm(bad[0][0])[:60]} clamps the index into the slot table {bad[0][1]}: the slot walk's run-away test never fires for a task "
+           "pinned outside the project time frame, which is then reported as scheduled with dates outside the horizon",
+           key="R11.2|Project.dateToIdx|raw index")
     # the walk never BEGINS outside the window either: at the loop header the cursor is inside [lower, upper] on every path
     # (a task pinned outside the project frame must be reported, not given dates beyond the horizon)
     gsch = cfg_of(sched)
